@@ -275,6 +275,20 @@ pub fn once_main() -> i32 {
     0
 }
 
+/// runs `f` from a frame that lies at least `bytes` deeper on the current thread's stack (the checks run on
+/// threads with 64 MiB of stack)
+#[inline(never)]
+fn at_stack_depth(bytes: usize, f: &mut dyn FnMut()) {
+    let mut pad = [0u8; 16 << 10];
+    std::hint::black_box(&mut pad);
+    if bytes > pad.len() {
+        at_stack_depth(bytes - pad.len(), f);
+    } else {
+        f();
+    }
+    std::hint::black_box(&mut pad);
+}
+
 fn random_history(src: &mut Src, obs: &mut Obs) -> Res {
     let (docs, queries, allowed) = gen_pool(src);
     let cheap = queries.iter().position(|q| q == "$..a").unwrap_or(0);
@@ -320,6 +334,10 @@ fn random_history(src: &mut Src, obs: &mut Obs) -> Res {
         let mut via_query = Value::Null;
         let mut via_paths = Value::Null;
         let mut via_parsed = Value::Null;
+        // the place of the call is part of the history too: one step in five is made from a frame that lies
+        // far deeper on the thread's stack than the steps before it (a caller that recurses on its own)
+        let frame_depth: usize = if src.chance(1, 5) { *src.pick(&[256usize << 10, 1536 << 10, 4 << 20, 12 << 20]) } else { 0 };
+        let mut body = || {
         for k in 0..4 {
             match (k + order) % 4 {
                 0 => got = result_of(doc, &queries[*q]),
@@ -358,6 +376,12 @@ fn random_history(src: &mut Src, obs: &mut Obs) -> Res {
                 }
             }
         }
+        };
+        if frame_depth > 0 {
+            at_stack_depth(frame_depth, &mut body);
+        } else {
+            body();
+        }
         let ok_query = match &exp_vals {
             Some(v) => via_query == json!(v),
             None => via_query == json!("Err"),
@@ -370,7 +394,7 @@ fn random_history(src: &mut Src, obs: &mut Obs) -> Res {
             return Err(Failure::new(
                 "the result of an evaluation depends on the history of earlier evaluations (it differs from the same pair evaluated first in a fresh process)",
                 json!({"step": step, "query": queries[*q], "doc": docs[*d], "query_with_path": got, "query": via_query, "query_only_path": via_paths, "js_path_process(parsed once)": via_parsed, "fresh_process": exp,
-                       "document_in_reused_slot": in_slot,
+                       "document_in_reused_slot": in_slot, "bytes_of_stack_between_this_call_and_the_earlier_ones": frame_depth,
                        "history": hist.iter().take(step + 1).map(|(d, q)| json!([d, queries[*q]])).collect::<Vec<_>>(), "docs": docs}),
             ));
         }
